@@ -26,7 +26,8 @@ ARG_KIND = {'angular_position_unit': 'AngularPosition', 'angular_speed_unit': 'A
             'angular_acceleration_unit': 'AngularAcceleration', 'torque_unit': 'Torque',
             'driving_torque_unit': 'Torque', 'load_torque_unit': 'Torque', 'force_unit': 'Force',
             'stress_unit': 'Stress', 'current_unit': 'Current'}
-RULE = ('snapshots (Hypothesis): simulated valid models (also stopped and continued runs), 3..6 snapshots each: target '
+RULE = ('snapshots (Hypothesis): simulated valid models (also stopped and continued runs, and run / reset / rerun with another '
+        'step but the same number of instants, with a snapshot taken between the runs), 3..6 snapshots each: target '
         'time at a recorded instant (first, last, any) or strictly between two instants, written in any of the 4 time '
         'units; requested variables = None or a random non-empty subset of the variables the powertrain records; all '
         '9 output units drawn at random. subsets (exhaustive in the thorough tier, every 10th in quick): EVERY '
@@ -180,16 +181,31 @@ def check(case) -> Result:
     res = Result()
     base = {k: v for k, v in case.items() if k not in ('snaps', 'export')}
     try:
-        b, traces, err = S.simulate(base)
+        b = S.build(base)
     except Exception as e:  # noqa
         res.classes += (f'build-rejected:{type(e).__name__}',)
         res.build_error = e
         return res
-    if err is not None or not traces:
-        res.classes += ('run-raised',)
-        res.run_error = err
+    tr = None
+    n_runs = sum(1 for op in base['history'] if op['op'] == 'run')
+    seen_runs = 0
+    for op in base['history']:
+        try:
+            S.run_op(b, op)
+        except Exception as e:  # noqa
+            res.classes += ('run-raised',)
+            res.run_error = e
+            return res
+        if op['op'] == 'run':
+            seen_runs += 1
+            tr = S.Trace(b)
+            if seen_runs < n_runs and case.get('snap_between_runs') and tr.n >= 2 and I.complete(tr) and I.finite_trace(tr):
+                # a snapshot taken in the middle of the history (before a continuation or a reset) ...
+                check_snapshot_on(b, tr, case['snaps'][0], res, label=f'after run {seen_runs}: ')
+                if res.violations:
+                    return res
+    if tr is None:
         return res
-    tr = traces[-1]
     if tr.n < 2 or not I.complete(tr) or not I.finite_trace(tr):
         res.classes += ('incomplete-or-nonfinite-trace',)
         return res
@@ -271,6 +287,14 @@ def s_case(draw, max_len=5, max_steps=25):
         for at in (1.0, 0.0):
             snaps.append({'at': ['instant', at], 'unit': u, 'variables': ['angular speed'], 'units': DEFAULT_UNITS})
     case['snaps'] = snaps
+    case['snap_between_runs'] = draw(st.booleans())
+    if draw(st.integers(0, 3)) == 0 and len(case['history']) == 1:
+        # run, reset, rerun with another step but the SAME number of instants (stale caches keyed on the length show here)
+        r1 = case['history'][0]
+        f = draw(st.sampled_from([0.5, 2.0, 0.25, 3.0]))
+        r2 = dict(r1, dt=[r1['dt'][0] * f, r1['dt'][1]], T=[r1['T'][0] * f, r1['T'][1]], stop=False)
+        case['history'] = [r1, {'op': 'reset', 'reinit': True}, r2]
+        case['snap_between_runs'] = True
     if draw(st.booleans()):
         case['export'] = {'units': draw(s_units()), 'time_unit': draw(G.s_unit('Time'))}
     return case
